@@ -95,6 +95,21 @@ def build_item(item):
     jnp = L["jnp"]
     if item["kind"] == "spec":
         return ds.make_dist(item["spec"]), None
+    if item["kind"] == "planar-set":
+        # planar layers with hand-set parameters (w, u, b): |w| below and above 1, w.u strongly negative (where the constraint on u acts)
+        import equinox as eqx
+        import flowjax.flows as F
+        import flowjax.distributions as fd
+        import jax
+        import jax.random as jr
+
+        flow = F.planar_flow(jr.PRNGKey(item["factory_key"]), base_dist=fd.StandardNormal((1,)), flow_layers=len(item["params"]), negative_slope=item["negative_slope"], invert=item["invert"])
+        leaves, td = jax.tree_util.tree_flatten(flow)
+        want = (len(item["params"]), 3)
+        hit = [i for i, l in enumerate(leaves) if hasattr(l, "shape") and tuple(l.shape) == want]
+        assert len(hit) == 1, f"planar parameter leaf not found ({[getattr(l, 'shape', None) for l in leaves]})"
+        leaves[hit[0]] = jnp.asarray(item["params"], dtype=float)
+        return jax.tree_util.tree_unflatten(td, leaves), None
     if item["kind"] == "bcast":
         # constructor broadcasting: vector loc with a python-scalar / 0-d / size-one scale (seeded change C04f kept the scale unbroadcast,
         # so the log-determinant counted it once instead of once per element; the density then integrates to scale**(1-dim))
@@ -383,6 +398,14 @@ def make_items(ctx):
                 main_items.append(flow_item(n, 1, 2 if (j + r + sd) % 2 == 0 else None, r == 0, rng))
         main_items.append(spec_item(rng, 1, ()))
         main_items.append(spec_item(rng, 1, (1,)))
+        # planar layers trained far from their 0.01-scale initialisation (|w| of order 1: the invertibility constraint on u is then active;
+        # seeded change C04g divided by |w| instead of |w|^2 there), both activations
+        main_items.append(flow_item("planar", 1, None, bool((sd + 1) % 2), rng, scale=1.5))
+        main_items.append(flow_item("planar-leaky" if "planar-leaky" in ds.FACTORIES else "planar", 1, 2 if sd % 2 else None, bool(sd % 2), rng, scale=1.2))
+        for ns in (None, 0.5):
+            wv, uv = [(0.4, -14.0), (2.0, 1.0), (0.5, -9.0), (3.0, -2.5)][int(rng.integers(0, 4))], [(0.3, -20.0), (1.5, -3.0)][int(rng.integers(0, 2))]
+            main_items.append(dict(kind="planar-set", dim=1, cond=None, params=[[wv[0], wv[1], 0.5], [uv[0], uv[1], -0.3]], negative_slope=ns, invert=True if ns is None else bool(rng.integers(0, 2)),
+                                   factory_key=int(rng.integers(0, 2**31)), sample_key=int(rng.integers(0, 2**31)), ks=ns is not None))  # tanh planar: no analytic inverse, density only
         main_items.append(dict(kind="bcast", dim=2, variant=int(rng.integers(0, 6)), perturb_seed=int(rng.integers(0, 2**31)), sample_key=int(rng.integers(0, 2**31)), ks=True))
         two = [("coupling", None, True), ("maf-rqs", None, False), ("triangular-spline", 2, True), ("planar", None, False), ("maf-affine", 2, True)]
         for q in (0, 2):
@@ -418,7 +441,7 @@ def make_items(ctx):
 
 def judge(ctx, unit_q, unit_ks, item, res):
     """thresholds of DESIGN 4.4 on one finished item."""
-    name = item.get("flow", "ctor-broadcast" if item.get("kind") == "bcast" else "hand-built")
+    name = item.get("flow", {"bcast": "ctor-broadcast", "planar-set": "planar(hand-set w,u,b)"}.get(item.get("kind"), "hand-built"))
     tag = f"{name}:dim{item['dim']}:inv{item.get('invert')}:cond{item.get('cond') is not None}"
     if "error" in res:
         ctx.violation(sig=f"quadrature:{name}:crash", what=f"{tag}: evaluation raised {res['error']}", case=item, found_input=True, unit=unit_q.name,
